@@ -8,6 +8,12 @@ PROPS = {}
 
 PROPS["C03"] = {
     "level": "exploration",
+    "claim": {
+        "technique": "runtime monitoring: reactive reference model of the asio waitable-timer contract stepped alongside the real library (ASan+UBSan build), bounded-exhaustive + random operation sequences",
+        "text": "Every generated sequence of timer operations is executed against the real library while a reference model of the contract checks each return value and each completion (time, error, order, exactly-once). All programs up to a small bound are enumerated, longer ones sampled; holds on what was explored, nothing more.",
+        "note": "Trusts the reference model in harness/e_timers.cpp and the step hook; one wait per timer (library precondition); timers never moved.",
+        "ref": "DESIGN.md 3/C03",
+    },
     "rule": "programs = sequences of expires_at/expires_after/async_wait/cancel/cancel_one/destroy/post/stop over 1-4 timers, "
             "issued at top level and from handlers, checked step by step against a reactive model of the waitable-timer contract; "
             "job 'exh' enumerates every program of <= N operations on 2 timers over the time alphabet {-1,0,+1,+2} us completely, "
@@ -28,6 +34,12 @@ PROPS["C03"] = {
 
 PROPS["C02"] = {
     "level": "exploration",
+    "claim": {
+        "technique": "runtime monitoring: co-simulated clock/ready-queue/pending-timer model compared at every handler execution via the step hook; monotonic-clock monitor in all engines",
+        "text": "For pure programs the virtual clock, FIFO order and time of posted work, run() return and stop/restart behaviour are compared step by step with a model of the documented mechanism; exhaustive for small programs, random beyond. Clock monotonicity is additionally watched in every network workload of the other engines.",
+        "note": "Exact clock model only for programs without sockets; which ready handlers still run after stop() is left open as the statement does.",
+        "ref": "DESIGN.md 3/C02",
+    },
     "rule": "same pure programs as C03 (timers armed at past/present/future instants from inside and outside handlers, post/defer/dispatch, "
             "stop()/restart(), repeated run()); the clock, the number of ready handlers and the set of pending timers are co-simulated and "
             "compared at every handler execution (step hook) and at every run() return; 'exh' enumerates all programs of <= N operations. "
